@@ -117,6 +117,90 @@ def run_front(front, path, cmd):
     return subprocess.run([front, cmd, path], stdout=subprocess.PIPE, text=True, timeout=60).stdout.rstrip("\n")
 
 
+DENOTE_POOL = ["\r\n", "a\r\nb", "\n\r", "\r", "\n\n", "\t\\", "\\n", "'\"", "\"'", "a'b", "é\r\nü", "\x00\x01", "\x7f\x80\xff", "→\n",
+               "😀\r", "x", "\r\n\r\n", " \t ", "ab", "\\\\", "\u2028\u2029", "\ud7ff\ue000", "\U0010ffff"]
+
+
+def rust_unescape(tok):
+    """a Rust string/char literal token as proc_macro2 prints it -> the string"""
+    body = tok[1:-1]
+    out, i = [], 0
+    while i < len(body):
+        ch = body[i]
+        if ch != "\\":
+            out.append(ch)
+            i += 1
+            continue
+        n = body[i + 1]
+        if n in "nrt0\\'\"":
+            out.append({"n": "\n", "r": "\r", "t": "\t", "0": "\0", "\\": "\\", "'": "'", '"': '"'}[n])
+            i += 2
+        elif n == "x":
+            out.append(chr(int(body[i + 2:i + 4], 16)))
+            i += 4
+        elif n == "u":
+            j = body.index("}", i)
+            out.append(chr(int(body[i + 3:j], 16)))
+            i = j + 1
+        else:
+            raise ValueError("escape \\%s in %r" % (n, tok))
+    return "".join(out)
+
+
+def denoted(out, ctx, front, rnd, work):
+    """(d) the characters a literal / range denotes are the characters the generated parser is given"""
+    import re
+    n = 60 if ctx.tier == "quick" else 600
+    checked = 0
+    for i in range(n):
+        k = rnd.randint(2, 5)
+        items = []
+        for _ in range(k):
+            r = rnd.random()
+            if r < 0.7:
+                s = rnd.choice(DENOTE_POOL) if rnd.random() < 0.6 else "".join(rnd.choice("ab\r\n\t'\"\\é→😀\x00 ") for _ in range(rnd.randint(1, 5)))
+                ins = rnd.random() < 0.2 and all(ord(c) < 128 for c in s)
+                items.append(("lit", s, ins))
+            else:
+                a = rnd.choice(["a", "\r", "\n", "\x00", "é", "'", "\\"])
+                b = chr(min(0x10FFFF, ord(a) + rnd.randint(0, 40)))
+                if 0xD800 <= ord(b) <= 0xDFFF:
+                    b = "\ue000"
+                items.append(("range", a, b))
+        pr = gen.Printer(random.Random(rnd.random()), fancy=True)
+        text = "@export @no_skip_ws R = " + " ".join(pr.expr(it) for it in items) + " 'end' 'end';\n"
+        path = os.path.join(work, "den%d.ebnf" % i)
+        open(path, "w", encoding="utf-8", newline="").write(text)
+        o = subprocess.run([front, "gen", path], stdout=subprocess.PIPE, stderr=subprocess.PIPE, text=True, timeout=60)
+        if not o.stdout.startswith("CODE\n"):
+            out.violation("c12denote-reject:%d" % i, "a grammar of literals and ranges that follows the syntax reference was rejected: " + (o.stdout + o.stderr)[:160],
+                          {"text": text})
+            continue
+        STR = r'"(?:[^"\\]|\\.)*"'
+        CHR = r"'(?:[^'\\]|\\.)*'"
+        calls = re.findall(r"(parse_string_literal_insensitive|parse_character_literal_insensitive|parse_string_literal|parse_character_literal|parse_character_range) "
+                           r"\(state(?: \. clone \(\))? , (" + STR + "|" + CHR + r")(?: , (" + CHR + r"))?\)", o.stdout)
+        got = []
+        for fn, a1, a2 in calls:
+            got.append((fn, tuple(rust_unescape(t) for t in (a1, a2) if t)))
+        want = []
+        for it in items:
+            if it[0] == "lit":
+                s = it[1].lower() if it[2] else it[1]
+                one = len(s) == 1
+                fn = ("parse_character_literal" if one else "parse_string_literal") + ("_insensitive" if it[2] else "")
+                want.append((fn, (s,)))
+            else:
+                want.append(("parse_character_range", (it[1], it[2])))
+        want += [("parse_string_literal", ("end",))] * 2
+        checked += len(want)
+        if got != want:
+            bad = [(g, w) for g, w in zip(got, want) if g != w][:2]
+            out.violation("c12denote:%d" % i, "a literal/range does not denote the documented characters in the generated parser: got %r, documented %r" % (bad[0] if bad else (got, want)),
+                          {"text": text, "generated_calls": repr(got), "documented": repr(want)})
+    return checked
+
+
 def check(out, ctx):
     front = os.path.join(ctx.bin, "front")
     rnd = random.Random(ctx.seed * 977 + 12)
@@ -193,7 +277,9 @@ def check(out, ctx):
         for (label, got) in lst[1:]:
             if got != first:
                 out.violation("c12layout:" + label, "the same grammar under another layout reads differently (%s vs %s)" % (lst[0][0], label), {})
+    den = denoted(out, ctx, front, rnd, work)
     out.coverage.update({
+        "literals_and_ranges_checked_in_generated_code": den,
         "evaluations": len(texts), "distinct_nontrivial": len(nontrivial),
         "rule": "generated grammars (all operators, directives in random order, @char/@extern rules, both quote styles, every escape form chosen at random per character) each printed plainly and under 2 random layouts (spaces/newlines/tabs/comments between tokens, redundant parentheses), plus the repository's own grammar files; non-trivial = a fancy-layout text; distinct by text",
         "samples": samples, "model_vs_implementation_disagreements": disagree,
